@@ -5,6 +5,7 @@
   attempt / each read call does.  Everything else is transcribed from the Rust.
 -/
 import Bita.Model.Basic
+import Bita.Gen.Facts
 
 namespace Bita
 
@@ -77,7 +78,8 @@ inductive FeedRes where
   deriving Repr
 
 /-- `if item.len() > self.size { item.truncate(self.size) }` -/
-def clipFrag (size : Nat) (f : Bytes) : Bytes := if size < f.length then f.take size else f
+def clipFrag (size : Nat) (f : Bytes) : Bytes :=
+  if Gen.httpFragmentClipped = true ∧ size < f.length then f.take size else f
 
 /-- `HttpRangeRequest::poll_read_fail`, `Stream` arm, for each fragment, followed by the
 `ChunkReader` loop (`chunk_buf.extend`, then hand out chunks). -/
@@ -228,5 +230,49 @@ def ioReadAt (file : Bytes) (offset size : Nat) (script : List ReadEv) : Item :=
   match ioFill file offset size [] script with
   | .ok data _ => Item.chunk data
   | .fail it => it
+
+/-! ## Resource use of the header reads (`read_at` with a size taken from an unverified header) -/
+
+/-- `BytesMut::with_capacity(min(size, MAX_PREALLOCATE))` (whether the `min` is there is read from
+the source). -/
+def ioCapInit (size : Nat) : Nat :=
+  if Gen.ioInitialCapacityBounded then min size Gen.ioMaxPreallocate else size
+
+/-- `buf.reserve(min(size - buf.len(), MAX_PREALLOCATE))` when the buffer is full: the capacity
+asked for. -/
+def ioCapGrow (size len : Nat) : Nat :=
+  len + (if Gen.ioGrowBounded then min (size - len) Gen.ioMaxPreallocate else size - len)
+
+/-- The loop of `IoReader::read_at` seen by the allocator: every capacity it asks for, paired with
+the number of bytes it holds at that moment.  A read fills at most the spare capacity and at most
+what the file has. -/
+def ioCapsLoop (file : Bytes) (offset size : Nat) : Nat → Nat → List ReadEv → List (Nat × Nat)
+  | _, _, [] => []
+  | len, cap, ev :: s =>
+    if size ≤ len then []
+    else
+      let cap' := if cap = len then ioCapGrow size len else cap
+      let asked : List (Nat × Nat) := if cap = len then [(cap', len)] else []
+      match ev with
+      | .pending => asked ++ ioCapsLoop file offset size len cap' s
+      | .err => asked
+      | .bytes n =>
+        let got := min (min n (cap' - len)) (file.length - (offset + len))
+        if got = 0 then asked else asked ++ ioCapsLoop file offset size (len + got) cap' s
+
+def ioReadAtCaps (file : Bytes) (offset size : Nat) (script : List ReadEv) : List (Nat × Nat) :=
+  (ioCapInit size, 0) :: ioCapsLoop file offset size 0 (ioCapInit size) script
+
+/-- `HttpRangeRequest::single_fail`: body frames (their sizes) are appended until
+`body.len() <op> size` (operator read from the source); the number of bytes buffered. -/
+def httpSingleStop (have_ size : Nat) : Bool :=
+  if Gen.httpSingleStopIf = ">=" then decide (have_ ≥ size)
+  else if Gen.httpSingleStopIf = "==" then decide (have_ = size)
+  else if Gen.httpSingleStopIf = ">" then decide (have_ > size)
+  else false
+
+def httpSingleTake (size : Nat) : Nat → List Nat → Nat
+  | acc, [] => acc
+  | acc, f :: fs => if httpSingleStop (acc + f) size then acc + f else httpSingleTake size (acc + f) fs
 
 end Bita
